@@ -35,7 +35,33 @@ let next_client () =
   let nb = next_int () <> 0 in
   let ge = next_opt (fun () -> next_opt (fun () -> read_list next_n)) in
   { text_document = td; workspace = ws; notebook_document = nb; general = ge }
+let next_objs () = read_list (fun () ->
+  let r = next_tri () in let w = next_tri () in let g = next_int () <> 0 in
+  { o_resolve = r; o_wsdiag = w; o_isreg = g })
+let emit mode c s_c wsspec =
+  let (caps, wsenc, cs, ss) =
+    if mode = 0 then (build c, VNone, c, s_c)
+    else let r = lsp_initialize c in (r.server_capabilities, r.workspace_encoding, with_builtins c, with_builtins s_c) in
+  List.iter (fun f -> put_value (observe caps f)) all_fields;
+  List.iter (fun f -> put_value (spec_caps ss f)) all_fields;
+  put_bool (guard cs); put_n (klass cs);
+  put_value wsenc;
+  put_value (if mode = 0 then VNone else wsspec ())
 let dispatch = function
+  | "hist" ->    (* a registration history: attempts (kind code object check), then as "caps" *)
+    let mode = next_int () in
+    let atts = read_list (fun () ->
+      let k = next_n () in let c = next_n () in let o = next_n () in let ck = next_n () in (((k, c), o), ck)) in
+    let objs = next_objs () in
+    let sk = next_optn () in
+    let nb = next_optn () in
+    let cli = next_client () in
+    let ops = drv_ops atts N0 in
+    let h0 = (config_of [] objs [] sk nb cli).heap0 in
+    let c = cfg_of_history drv_nm drv_cid ops h0 sk nb cli in
+    let s_c = spec_cfg_of_history drv_nm drv_cid ops h0 sk nb cli in
+    put_list put_bool (results empty_registry ops);
+    emit mode c s_c (fun () -> spec_workspace_encoding s_c)
   | "caps" ->
     let mode = next_int () in
     let feats = read_list (fun () -> let c = next_n () in let o = next_n () in (c, o)) in
